@@ -34,7 +34,7 @@ pub fn tier(name: &str) -> Tier {
             runs: env_usize("VERIF_RUNS", 1_000_000),
             batch: 600,
             workers: cores,
-            redo_batches: 40,
+            redo_batches: env_usize("VERIF_REDO_BATCHES", 40),
             redo_workers_alt: 4,
             wall_cap: Duration::from_secs(env_usize("VERIF_WALL_CAP_S", 1500) as u64),
         },
@@ -44,7 +44,7 @@ pub fn tier(name: &str) -> Tier {
             runs: env_usize("VERIF_RUNS", 100_000),
             batch: 400,
             workers: cores,
-            redo_batches: 6,
+            redo_batches: env_usize("VERIF_REDO_BATCHES", 6),
             redo_workers_alt: 4,
             wall_cap: Duration::from_secs(env_usize("VERIF_WALL_CAP_S", 240) as u64),
         },
